@@ -31,5 +31,13 @@ def r01_8(ctx):
               'an edge can be inserted into a start row it does not cover (the y1 >= height / cury >= y2 / cury < 0 tests no longer cut every path to the insertion, e.g. the re-test after stepping an off-surface edge down to row 0 was weakened): spurious coverage appears on that sample row')
 
 
+def _r11_9(ctx):
+    import props.c11 as c11
+    c11.r11_9(ctx)
+
+
+_r11_9.__name__ = 'r11_9'
+
+
 def run(ctx):
-    engine.run_rules(ctx, [r01_8, ras.r01_1, ras.r01_2, ras.r01_3, ras.r01_4_close, ras.r01_5, ras.r01_6, ras.r08_5, ras.r08_7, ras.r01_9, ras.r01_10, ras.r01_11, ras.r01_12, ras.r01_13, ras.r01_14, ras.r10_1, ras.r10_2, ras.r10_5, ras.r08_34, ras.r08_6])
+    engine.run_rules(ctx, [r01_8, ras.r01_1, ras.r01_2, ras.r01_3, ras.r01_4_close, ras.r01_5, ras.r01_6, ras.r08_5, ras.r08_7, ras.r01_9, ras.r01_10, ras.r01_11, ras.r01_12, ras.r01_13, ras.r01_14, ras.r01_15, ras.r10_1, ras.r10_2, ras.r10_5, ras.r08_34, ras.r08_6, _r11_9])
